@@ -430,6 +430,11 @@ func (x *X) evalCall(env *Env, e *ast.CallExpr) TV {
 			}
 			x.sc.Declare(sym, []string{SStr, SStr}, SInt)
 			return TV{S{"(" + sym + " " + a.V.(S).T + " " + b.V.(S).T + ")", SInt}, types.Typ[types.Int]}
+		case "parseuint":
+			// parseuint(s): the value strconv.ParseUint(s, 10, 64) returns (same symbol as the extern model)
+			a := x.eval(env, e.Args[0])
+			x.sc.Declare("strconv.ParseUint.val", []string{SStr, SInt, SInt}, SInt)
+			return TV{S{"(strconv.ParseUint.val " + a.V.(S).T + " 10 64)", SInt}, types.Typ[types.Uint64]}
 		case "strcontains":
 			// strcontains(s, sub): the value strings.Contains(s, sub) (same symbol as the extern model)
 			a, b := x.eval(env, e.Args[0]), x.eval(env, e.Args[1])
